@@ -131,3 +131,21 @@ Print Assumptions C05_T1_nonvacuous.
 Example C05_paging_nonvacuous : spec_C05 w_pages_unique (run_C05 w_pages_unique) = true /\ known_C05 w_pages_unique = [] /\ wf_C05 w_pages_unique = [1; 1].
 Proof. exact w_pages_unique_ok. Qed.
 Print Assumptions C05_paging_nonvacuous.
+
+(* (7) tier T2, first slice: nested entity / array references (any depth; scalars first in a selection).
+       The statement of the slice is C05_T2_full; it is tied to the code differentially (SQL text, parameter list
+       and JSON of the real engine against Nested.compile2 / print2 / run_nodes, and the oracle JSON = Nested.eval2
+       on every generated nested query); what is machine-checked so far is the limit given to EXISTS sub-queries
+       and the directed cases, among them the one where a parent has fewer children than the nested `skip` *)
+Theorem C05_T2_exists_limit_partial : forall si, exists_unique si = negb (si_array si).
+Proof. exact T2_exists_limit_partial. Qed.
+Print Assumptions C05_T2_exists_limit_partial.
+Example C05_T2_exists_skip_ok : spec_C05 w_nested_exists_skip (run_C05 w_nested_exists_skip) = true /\ known_C05 w_nested_exists_skip = [] /\ wf_C05 w_nested_exists_skip = [1; 1].
+Proof. exact w_nested_exists_skip_ok. Qed.
+Print Assumptions C05_T2_exists_skip_ok.
+Example C05_T2_two_levels_ok : spec_C05 w_nested_two_levels (run_C05 w_nested_two_levels) = true /\ known_C05 w_nested_two_levels = [] /\ wf_C05 w_nested_two_levels = [1; 1].
+Proof. exact w_nested_two_levels_ok. Qed.
+Print Assumptions C05_T2_two_levels_ok.
+Example C05_T2_entity_ref_ok : spec_C05 w_nested_entity_ref (run_C05 w_nested_entity_ref) = true /\ known_C05 w_nested_entity_ref = [] /\ wf_C05 w_nested_entity_ref = [1; 1].
+Proof. exact w_nested_entity_ref_ok. Qed.
+Print Assumptions C05_T2_entity_ref_ok.
